@@ -13,9 +13,10 @@ A `time.Time` instant is an `Int`: its TRUE number of nanoseconds since the Unix
 Go's `Time` covers far more than int64 nanoseconds).  `Time.UnixNano()` is that number wrapped to
 int64 (`wrap64`), exactly what Go computes (`sec*1e9 + nsec` in int64 arithmetic).
 
-`signed = true` is the code as it is now (`strconv.ParseInt`, /repo commit "fix: search: continue
-token …"); `signed = false` is the code before the fix (`strconv.ParseUint`), kept for the
-counterexample theorem.
+`signed = true` is the code as it is now (`strconv.ParseInt`, /repo commit cb45160 "fix: search: continue
+token of a pre-1970 permanode time is parsed as a signed integer"); `signed = false` is the code
+before the fix (`strconv.ParseUint`), kept for the counterexample theorem.  Likewise `fixed` in
+`aroundPos` (/repo commit bc93a45 "fix: search: Around on results not sorted by blobref no longer panics").
 -/
 namespace Pk.SearchPage
 open Pk Pk.Ref
@@ -152,8 +153,11 @@ inductive SortBy where
   | lastMod     -- LastModifiedDesc
 deriving DecidableEq, Repr
 
+/-- the base constraints of the correspondence: `Permanode{}`, `Permanode{Attr: tag, Value: a}`, the same
+for `b`, `Constraint{CamliType: permanode}`, and `Logical{and, tag=a, tag=b}` (all of them
+`onlyMatchesPermanode`) -/
 inductive Cons where
-  | all | tagA | tagB
+  | all | tagA | tagB | camliType | both
 deriving DecidableEq, Repr
 
 def pnTime : SortBy → PN → Option Int
@@ -184,7 +188,7 @@ first, then by ref descending -/
 def candidates (srt : SortBy) (w : List PN) : List Cand :=
   sortBy before (w.filterMap (fun p => (pnTime srt p).map (fun t => (t, p.ref))))
 
-/-- the base constraint (`Permanode{}` or `Permanode{Attr: tag, Value: a|b}`) on the permanode `k` -/
+/-- the base constraint on the permanode `k` -/
 def baseMatches (w : List PN) (c : Cons) (k : RefKey) : Bool :=
   match w.find? (fun p => p.ref == k) with
   | none => false
@@ -193,6 +197,8 @@ def baseMatches (w : List PN) (c : Cons) (k : RefKey) : Bool :=
     | .all => true
     | .tagA => p.tagA
     | .tagB => p.tagB
+    | .camliType => true
+    | .both => p.tagA && p.tagB
 
 /-- PermanodeContinueConstraint: the token's time (in `LastMod` or `LastCreated`, the other is the
 zero Time) and `Last` -/
